@@ -1452,13 +1452,21 @@ class SpaceManager(SharedSpaceOperations):
         old_name = cells.name
 
         renamed = []
+        dropped = []
         for space in self._get_subs(cells.parent, skip_self=False):
             space.clear_subs_rootitems()
             c = space.cells[old_name]
             # Cells overridden in or derived from other bases keep the name
             if c is cells or (c.is_derived() and self.get_deriv_bases(
                     c, defined_only=True)[0] is cells):
-                renamed.append(c)
+                if c is not cells and name in space.cells:
+                    # The sub space has its own cells of the new name
+                    dropped.append(space)
+                else:
+                    renamed.append(c)
+
+        for space in dropped:
+            space.on_del_cells(old_name)
 
         for c in renamed:
             c.on_rename(name)
